@@ -43,6 +43,11 @@ THEOREMS = [
     "C19.load_prefers_source",
     "C19.name_rule",
     "C19.isRevFile_name",
+    "C19.pycache_listing_rule",
+    "C19.pycache_entry_loaded_once",
+    "C19.pycache_entry_shadowed",
+    "C19.twice_warning",
+    "C19.only_source_unless_sourceless",
 ]
 PARTIAL = {}
 TRUSTED = [
